@@ -63,7 +63,22 @@ EventsVerdict(o) ==
   (IF {o.out[k][1] : k \in 1..Len(o.out)} = names /\ Len(o.out) = Cardinality(names) THEN {} ELSE {"EveryNameConsolidated"})
   \cup (IF \A k \in 1..Len(o.out) : ConsolidatedOk(o.files, o.out[k][1], o.out[k][2]) THEN {} ELSE {"EventsLosslessOrdered"})
   \cup (IF o.out2 = o.out THEN {} ELSE {"ConsolidationIdempotent"})
-Verdict(o) == IF o.kind = "stats" THEN StatsVerdict(o) ELSE EventsVerdict(o)
+\* resource-statistics events (cpu_stats, process_stats, ...) are consolidated into one table per name instead: a row per event
+\* -- per monitored process for process_stats -- carrying the event's time and source and the row's own fields.
+\* A table event is <<name, timestamp, source, rows>>; the expected table of a name:
+TableRows(files, name) ==
+  UNION {{<<e[2], e[3]>> \o e[4][k] : k \in 1..Len(e[4])} : e \in {x \in ToSet(AllEvents(files)) : x[1] = name}}
+TableOk(files, name, out) ==
+  LET want == TableRows(files, name) IN
+  /\ ToSet(out) = want /\ Len(out) = Cardinality(want)
+  /\ \A a, b \in 1..Len(out) : a < b => out[a][1] <= out[b][1]
+TablesVerdict(o) ==
+  LET names == NamesOf(o.files) IN
+  IF o.raised # "" THEN {"StatTablesLossless"}
+  ELSE (IF {o.out[k][1] : k \in 1..Len(o.out)} = names /\ Len(o.out) = Cardinality(names) THEN {} ELSE {"EveryNameConsolidated"})
+       \cup (IF \A k \in 1..Len(o.out) : TableOk(o.files, o.out[k][1], o.out[k][2]) THEN {} ELSE {"StatTablesLossless"})
+       \cup (IF o.out2 = o.out THEN {} ELSE {"ConsolidationIdempotent"})
+Verdict(o) == IF o.kind = "stats" THEN StatsVerdict(o) ELSE IF o.kind = "tables" THEN TablesVerdict(o) ELSE EventsVerdict(o)
 
 OInit == samples = <<>> /\ rmin = 0 /\ rmax = 0 /\ rsum = 0 /\ rcount = 0 /\ i \in 1..Len(Obs)
 Init == IF Mode = "machine" THEN MInit ELSE OInit
